@@ -1,6 +1,7 @@
 /-
   C13 — an expression means the same in every position, alias, spelling and cache size.
 -/
+import Jawk.Lemmas.ParseRender
 import Jawk.Model.Run
 import Jawk.Spec.Cache
 namespace Jawk.C13
@@ -130,5 +131,48 @@ theorem cache_any_history {α} (compile : List Char → α) (evict : CacheSt α 
 /-- non-vacuity: an empty cache satisfies the invariant, and FIFO eviction satisfies `hev` -/
 example : CacheInv (fun p => p.length) ([] : CacheSt Nat) := by intro e he; cases he
 example : ∀ (s : CacheSt Nat), ∀ e ∈ s.dropLast, e ∈ s := fun s e he => (List.dropLast_sublist s).subset he
+
+
+/-! ### spelling independence: `parse ∘ render = id` (helper file `Jawk/Lemmas/ParseRender.lean`)
+
+`PR.render st e` writes an AST as text in a `Style` (how arguments are separated — any non-empty mix of blanks
+and commas —, what precedes the closing parenthesis, which of its names each function is called by, how literals
+are printed); `PR.WFR` is the set of ASTs that have a text at all (keys without stop bytes, printable literals,
+arities in range). -/
+
+/-- an alias resolves to the same definition as the canonical name — over the whole table regenerated from the
+source, so the parser builds THE SAME AST for `(alias args…)` and `(name args…)`, with and without dot sugar -/
+theorem alias_same_ast (e : String × List String × Nat × Option Nat) (he : e ∈ Generated.functionTable)
+    (a : String) (ha : a ∈ e.2.1) (fuel : Nat) :
+    PR.resolveCall a.toList fuel = PR.resolveCall e.1.toList fuel ∧
+    PR.resolveCall ('.' :: a.toList) fuel = PR.resolveCall ('.' :: e.1.toList) fuel :=
+  PR.alias_same_ast e he a ha fuel
+
+/-- MAIN: every renderable AST, written in ANY valid style with any surrounding white space, parses back to
+exactly that AST -/
+theorem parse_render (st : PR.Style) (hst : PR.StyleOK st) (e : Expr) (he : PR.WFR st.o e)
+    (lead trail : Str) (hlead : ∀ c ∈ lead, RT.isWsChar c = true) (htrail : ∀ c ∈ trail, RT.isWsChar c = true) :
+    parseWholeExpr (lead ++ (PR.render st e ++ trail)) = .ok e :=
+  PR.parseWholeExpr_render st hst e he lead trail hlead htrail
+
+/-- hence two spellings of the same expression — spaces or commas or both, padding, any alias, any literal
+style — mean the same: they ARE the same AST -/
+theorem spelling_independent (st₁ st₂ : PR.Style) (h₁ : PR.StyleOK st₁) (h₂ : PR.StyleOK st₂) (e : Expr)
+    (he₁ : PR.WFR st₁.o e) (he₂ : PR.WFR st₂.o e) (lead₁ trail₁ lead₂ trail₂ : Str)
+    (hl₁ : ∀ c ∈ lead₁, RT.isWsChar c = true) (ht₁ : ∀ c ∈ trail₁, RT.isWsChar c = true)
+    (hl₂ : ∀ c ∈ lead₂, RT.isWsChar c = true) (ht₂ : ∀ c ∈ trail₂, RT.isWsChar c = true) :
+    parseWholeExpr (lead₁ ++ (PR.render st₁ e ++ trail₁)) = parseWholeExpr (lead₂ ++ (PR.render st₂ e ++ trail₂)) :=
+  PR.style_independent st₁ st₂ h₁ h₂ e he₁ he₂ lead₁ trail₁ lead₂ trail₂ hl₁ ht₁ hl₂ ht₂
+
+theorem separator_independent (e : Expr) (he : PR.WellFormedR e) (sp₁ sp₂ : PR.SepStyle) :
+    parseWholeExpr (PR.renderSp sp₁ e) = parseWholeExpr (PR.renderSp sp₂ e) :=
+  PR.separator_independent e he sp₁ sp₂
+
+/-- `(.f x)` is `(f . x)`: both spellings parse to the same AST -/
+theorem dot_sugar (st : PR.Style) (hst : PR.StyleOK st) (fn : String) (as : List Expr)
+    (hwf : PR.WFR st.o (.call fn (PR.root :: as))) :
+    parseWholeExpr (PR.renderDot st fn as) = .ok (.call fn (PR.root :: as)) ∧
+    parseWholeExpr (PR.render st (.call fn (PR.root :: as))) = .ok (.call fn (PR.root :: as)) :=
+  PR.dot_sugar_whole st hst fn as hwf
 
 end Jawk.C13
